@@ -326,7 +326,7 @@ def main():
             gone = [key(r) for r in s["runs"] if key(r) in drop and r["tiers"] == T]
             s["runs"] = [r for r in s["runs"] if not (key(r) in drop and r["tiers"] == T)]
             if gone:
-                s["outside"] = s["outside"] + ["deeper configurations that did not finish within 7 minutes on this machine when probed one by one and are therefore not registered: " + "; ".join(gone)]
+                s["outside"] = s["outside"] + ["deeper configurations that did not complete cleanly on this machine (7-minute limit when probed one by one, or undecided solver queries in the last thorough pass) and are therefore not registered: " + "; ".join(gone)]
         if any(r.get("fn") == "vfH_Burst" and r.get("params", {}).get("hashes") == 1 for r in s["runs"]):
             s["bounds"] = s["bounds"] + ["thorough-tier bursts of 3 calls use CONCRETE key hashes (three keys in shards 0/1: no data forks over shard, sketch and doorkeeper positions); bursts of 1..2 calls use symbolic hashes"]
         # the thorough tier contains every quick run (several deeper counterparts were dropped above)
